@@ -769,10 +769,21 @@ class Interp:
             # *args: the positional arguments beyond the named parameters, as a tuple
             npos = len([p for p in callee.params if not (p == "self" and callee.cls and not unbound)])
             extra_pos = [a0 for a0 in call.args[npos:]]
-            if any(isinstance(a0, ast.Starred) for a0 in call.args):
-                env[callee.vararg] = Unk("varargs", ("list", None))
-            else:
-                env[callee.vararg] = ListV([self.eval(a0, st, fr) for a0 in extra_pos], True, "tuple")
+            items, known = [], not any(isinstance(a0, ast.Starred) for a0 in call.args[:npos])
+            for a0 in extra_pos:
+                if not known:
+                    break
+                if isinstance(a0, ast.Starred):
+                    sv = self.eval(a0.value, st, fr)   # `*rest` handed on: its elements, when they are known
+                    if isinstance(sv, ListV):
+                        items.extend(sv.items)
+                    else:
+                        known = False
+                else:
+                    v0 = self.eval(a0, st, fr)
+                    r0 = self._ref_of(a0, v0, st, fr)   # a model object's list handed over is that list, not a copy
+                    items.append((r0 if r0 is not None and r0.obj is not None else None) or v0)
+            env[callee.vararg] = ListV(items, True, "tuple") if known else Unk("varargs", ("list", None))
         st.env = env
         res = []
         # local containers handed to the callee are shared objects: what the callee does to its parameter (add / append /
@@ -1138,6 +1149,8 @@ class Interp:
             for n in ast.walk(s.test):
                 if isinstance(n, ast.Name) and n.id in st.env and isinstance(st.env[n.id], Unk) and st.env[n.id].tag != n.id:
                     vtags.append((n.id, st.env[n.id].tag))
+                elif isinstance(n, ast.Name) and isinstance(st.env.get(n.id), RefV) and st.env[n.id].obj is not None:
+                    vtags.append((n.id, f"{st.env[n.id].obj.name}.{st.env[n.id].attr}"))   # a model object's list handed over under another name
         finally:
             self._quiet -= 1
         for st1, truth, forked in self.branch(s.test, st, fr):
@@ -1153,6 +1166,9 @@ class Interp:
         v = self.truth(test, st, fr)
         if v is not None:
             return [(st, v, False)]
+        cs = self._enum_membership_split(test, st, fr)
+        if cs is not None:
+            return cs
         key = (fr.uid, ast.unparse(test))
         if key in st.memo:
             return [(st, st.memo[key], False)]
@@ -1177,6 +1193,47 @@ class Interp:
             return [(res[0][0], res[0][1], False)]
         self.npaths += 1
         return res
+
+    def _enum_membership_split(self, test, st, fr):
+        """`x in table` / `x not in table` with x an enum value that is not known and `table` a dict (or tuple) keyed by members of
+        that enum: one path per member of x, so that a later `table[x]` is decided (a table-driven gate instead of an if/elif
+        chain).  -> list of (state, truth, forked) or None."""
+        t = test
+        neg = False
+        while isinstance(t, ast.UnaryOp) and isinstance(t.op, ast.Not):
+            neg, t = not neg, t.operand
+        if not (isinstance(t, ast.Compare) and len(t.ops) == 1 and isinstance(t.ops[0], (ast.In, ast.NotIn)) and isinstance(t.left, (ast.Name, ast.Attribute))):
+            return None
+        if isinstance(t.ops[0], ast.NotIn):
+            neg = not neg
+        self._quiet += 1
+        try:
+            x = self.eval(t.left, st, fr)
+            tab = self.eval(t.comparators[0], st, fr)
+        finally:
+            self._quiet -= 1
+        if not (isinstance(x, EnumSet) and 1 < len(x.members) <= 8):
+            return None
+        if isinstance(tab, DictV):
+            keys = [k for k, _v, _r in tab.entries]
+        elif isinstance(tab, ListV) and tab.fresh:
+            keys = list(tab.items)
+        else:
+            return None
+        if not keys or not all(isinstance(k, EnumSet) and k.cls == x.cls and k.single() is not None for k in keys):
+            return None
+        names = {k.single() for k in keys}
+        out = []
+        for m in sorted(x.members):
+            s2 = st.copy()
+            self._quiet += 1
+            try:
+                self.refine(t.left, EnumSet(x.cls, [m]), s2, fr)
+            finally:
+                self._quiet -= 1
+            out.append((s2, (m in names) != neg, True))
+        self.npaths += len(out) - 1
+        return out
 
     def _semantic_key(self, test, st, fr):
         """For `a <op> b` over polynomials: a memo key that identifies the comparison by its normal form
@@ -2211,6 +2268,12 @@ class Interp:
         return None
 
     def _mut_event(self, recv_expr, op, args, node, st, fr, argnodes=None):
+        if isinstance(recv_expr, ast.Call) and isinstance(recv_expr.func, ast.Name) and recv_expr.func.id == "getattr" and len(recv_expr.args) == 2:
+            nm = self.eval(recv_expr.args[1], st, fr)
+            if isinstance(nm, Const) and isinstance(nm.v, str) and nm.v.isidentifier():
+                # getattr(x, "name").append(...) is x.name.append(...)
+                tgt = ast.copy_location(ast.Attribute(value=recv_expr.args[0], attr=nm.v, ctx=ast.Load()), recv_expr)
+                return self._mut_event(tgt, op, args, node, st, fr, argnodes)
         if isinstance(recv_expr, ast.Subscript) and not isinstance(recv_expr.slice, ast.Slice):
             d = self.eval(recv_expr.value, st, fr)
             if isinstance(d, DictV):
@@ -2762,6 +2825,14 @@ class Interp:
                     return self.eval(e.args[1], st, fr) if len(e.args) > 1 else NONE
                 if ent is not None:
                     return st.env.get(ent[2], ent[1]) if ent[2] else ent[1]
+        if isinstance(f, ast.Attribute) and f.attr in MUTATORS and isinstance(f.value, ast.Call) and isinstance(f.value.func, ast.Name) and f.value.func.id == "getattr" \
+                and len(f.value.args) == 2:
+            nm0 = self.eval(f.value.args[1], st, fr)
+            if isinstance(nm0, Const) and isinstance(nm0.v, str) and nm0.v.isidentifier():
+                # getattr(x, "name").append(...) is x.name.append(...)
+                f2 = ast.copy_location(ast.Attribute(value=ast.copy_location(ast.Attribute(value=f.value.args[0], attr=nm0.v, ctx=ast.Load()), f.value), attr=f.attr, ctx=ast.Load()), f)
+                e2 = ast.copy_location(ast.Call(func=f2, args=e.args, keywords=e.keywords), e)
+                return self.eval_call(e2, st, fr, effects)
         if isinstance(f, ast.Attribute) and f.attr in MUTATORS and isinstance(f.value, (ast.Attribute, ast.Name)):
             base_t = fr.ft.type_of(f.value)
             is_model_call = base_t is not None and base_t[0] == "obj"
@@ -3740,6 +3811,41 @@ class Interp:
                         st.bounds[syms[0][0]] = (lo, hi)
                 return True
             return True
+        # a private one-expression predicate (`return a.has_skill(t) and is_allocated(a, t)`): assuming the call means assuming that
+        # expression over its arguments -- the facts it is made of are then known under their own names
+        if isinstance(test, ast.Call) and getattr(self, "_pred_depth", 0) < 3:
+            try:
+                callees, resolved = self._resolve(test, st, fr)
+            except AnalysisError:
+                callees, resolved = [], False
+            c0 = callees[0] if resolved and len(callees) == 1 else None
+            if c0 is not None and getattr(c0, "parent", None) is None and c0.name.startswith("_") and not (c0.name.startswith("__") and c0.name.endswith("__")) \
+                    and not any(isinstance(a, ast.Starred) for a in test.args) and all(k.arg for k in test.keywords):
+                body = [b for b in c0.body() if not (isinstance(b, ast.Expr) and isinstance(b.value, ast.Constant))]
+                ret = body[0].value if len(body) == 1 and isinstance(body[0], ast.Return) else None
+                if isinstance(ret, (ast.BoolOp, ast.Compare, ast.Call)) or (isinstance(ret, ast.UnaryOp) and isinstance(ret.op, ast.Not)):
+                    self._quiet += 1
+                    try:
+                        args = self._bind_args(test, c0, st, fr)
+                        if c0.cls and c0.params and c0.params[0] == "self" and isinstance(test.func, ast.Attribute):
+                            args["self"] = self.eval(test.func.value, st, fr)
+                    finally:
+                        self._quiet -= 1
+                    if all(p in args or p in c0.defaults for p in c0.params):
+                        for p, d in c0.defaults.items():
+                            if p not in args:
+                                args[p] = self.eval(d, st, fr)
+                        nfr = Frame(c0, self.types.ftypes(c0), fr.stack + ((fr.func.loc(test), c0.qualname),), depth=fr.depth + 1)
+                        saved = st.env
+                        st.env = dict(args)
+                        self._pred_depth = getattr(self, "_pred_depth", 0) + 1
+                        try:
+                            ok = self.assume(ret, truth, st, nfr)
+                        finally:
+                            st.env = saved
+                            self._pred_depth -= 1
+                        if ok is False:
+                            return False
         # bare name / attribute / call used as a condition
         v = self.eval(test, st, fr)
         if isinstance(v, Unk):
